@@ -48,6 +48,7 @@ func init() {
 		Assumptions: []string{
 			"fake Postgres (h/simpg) enforces unique indexes (NULLs never conflict) and column existence as PostgreSQL does; it does not know reserved words, so quoting is judged on the statement text against a list written from the PostgreSQL documentation (appendix C)",
 			"two integrations with the same event signature both index the same logs; two sources serve the same chain",
+			"quoting of reserved words is outside the property: a configuration whose column/table/unique/index entry is a PostgreSQL key word that the generated DDL leaves unquoted is recorded as observed:reserved-word-unquoted:<category> (outcome + counters + sample), never judged",
 			"only sequential executions; blocks always contain at least one transaction with trace actions (pending jrpc2 defect with empty trace lists is avoided)",
 		},
 		Budget:        map[string]time.Duration{"quick": 110 * time.Second, "thorough": 850 * time.Second},
@@ -176,7 +177,8 @@ func c16Jobs(thorough bool) []c16Job {
 				continue
 			}
 			jobs = append(jobs, c16Job{Kind: "order", Shapes: tp, Tables: []int{0, 0}, Route: "migrate", Ident: iv})
-			if thorough {
+			if thorough && !strings.HasPrefix(iv, "renamed:") {
+				// (renamed identity columns under a foreign key owner would mix two causes in one failure)
 				jobs = append(jobs, c16Job{Kind: "order", Shapes: tp, Tables: []int{0, 0}, Route: "ddl", Ident: iv})
 			}
 		}
@@ -355,6 +357,7 @@ type c16Vio struct{ class, key, detail string }
 type c16Res struct {
 	outcome string
 	vios    []c16Vio
+	obs     []c16Vio // observations outside the property (recorded, never judged)
 	harness string
 	rows    int
 	steps   int
@@ -769,8 +772,14 @@ func c16Quoting(j c16Job, sqls []string, res *c16Res) {
 		if strings.HasPrefix(name, `"`) || c16WordClass(name) == "" {
 			return
 		}
-		res.vio("reserved-unquoted", fmt.Sprintf("reserved-word:%s:%s:unquoted-in-%s", j.Where, wc, what),
-			"configuration with %s named %q (PostgreSQL key word, category %q) is accepted and the statement\n  %s\nuses the word unquoted: PostgreSQL rejects it with a syntax error", j.Where, j.Word, wc, stmt)
+		key := fmt.Sprintf("observed:reserved-word-unquoted:%s:%s-in-%s", wc, j.Where, what)
+		for _, o := range res.obs {
+			if o.key == key {
+				return
+			}
+		}
+		res.obs = append(res.obs, c16Vio{"reserved-unquoted", key, fmt.Sprintf(
+			"configuration with %s named %q (PostgreSQL key word, category %q) is accepted and the statement\n  %s\nuses the word unquoted: PostgreSQL rejects it with a syntax error", j.Where, j.Word, wc, stmt)})
 	}
 	first := func(s string) string {
 		s = strings.TrimSpace(s)
@@ -838,6 +847,15 @@ func c16Report(c *fw.Ctx, j c16Job, r c16Res) {
 	c.Count("jobs:"+j.Kind, 1)
 	for _, v := range r.vios {
 		c.Violation("C16", v.class, v.key, fmt.Sprintf("job %s\n%s", toJSON(j), v.detail), j)
+	}
+	for _, o := range r.obs {
+		// quoting of reserved words is outside the property (columns present / union / unique key)
+		c.Outcome(o.key[:strings.LastIndex(o.key, ":")])
+		c.Count(o.key, 1)
+		if c.Res.Counters[o.key] == 1 && c.Res.Counters["observation_samples"] < 3 {
+			c.Count("observation_samples", 1)
+			c.Res.Samples = append(c.Res.Samples, map[string]any{"observed": o.key, "job": j, "detail": o.detail})
+		}
 	}
 	if c.Res.Evaluations%211 == 3 {
 		c.Sample(map[string]any{"job": j, "outcome": out, "rows": r.rows})
